@@ -812,6 +812,30 @@ func refusalWriteLostSig(c fw.Case, outs []string, msg string) bool {
 	return false
 }
 
+// refusalUnrecordedSig (C02): the message names change K of target T sent before an earlier proposal finished, and an
+// EARLIER proposal J < K of the same target had a refused apply step that lost one of its writes (injection) - the
+// applied index was advanced, the FAILED status was not recorded (same defect as KF-C11-refusal-lost-on-crash, seen
+// before the proposal is reconciled again).
+var applyOrderRe = regexp.MustCompile(`apply-order: change (\d+) of target (\d+) sent before`)
+
+func refusalUnrecordedSig(c fw.Case, outs []string, msg string) bool {
+	m := applyOrderRe.FindStringSubmatch(msg)
+	if m == nil {
+		return false
+	}
+	k, t := atoi(m[1]), atoi(m[2])
+	for _, ln := range c.Script {
+		f := strings.Fields(ln)
+		if len(f) >= 2 && f[0] == "v2.run" && strings.HasPrefix(f[1], "prop:") && strings.Contains(ln, "dev=fail:") && strings.Contains(ln, "inject=") {
+			a := strings.Split(f[1], ":")
+			if len(a) == 3 && atoi(a[1]) == t && atoi(a[2]) < k {
+				return true
+			}
+		}
+	}
+	return false
+}
+
 // abortBlocks: an unfinished abort matters to the property only while it holds a target's indexes
 // back (FAILED is final for the transaction itself): some proposal of the transaction is still
 // ABORTING and the configuration's committed or applied index has not passed it.
